@@ -42,15 +42,18 @@ CHECKS = {
                      "and leaves the object reusable, overlapping calls raise RuntimeError while tasks are incomplete.",
                 note="Same trusted base as C01; availability is stamped at callback start and judged per batch; a "
                      "generator dropped by a foreign thread counts as over once joblib's helper thread has finished."),
-    "C15": dict(engine="detsched+simpool", cat="exploration", ref="DESIGN.md section 3 (C15)",
+    "C15": dict(engine="detsched+simpool (+ simproc for loky)", cat="exploration", ref="DESIGN.md section 3 (C15) and 10.1",
                 technique="deterministic simulation on a simulated machine (cpu count / affinity / LOKY_MAX_CPU_COUNT / "
                           "cgroup seams) with seeded schedules and nesting shapes; sizes requested from every pool factory "
                           "and the high-water mark of running tasks are the observations",
                 text="Decides that joblib asks for exactly the resolved n_jobs from every pool/executor factory, keeps "
                      "n_jobs=1 in the calling thread, rejects 0, computes cpu_count() >= 1 within every limit, uses "
                      "threads for the first nesting level and nothing below, and never requests process workers from "
-                     "inside a worker; the concurrency bound itself is true by construction of an n-slot stub pool and "
-                     "is only cross-checked (honest limit in DESIGN.md).",
+                     "inside a worker; for the thread / multiprocessing flavours the concurrency bound itself is true by "
+                     "construction of an n-slot stub pool and is only cross-checked (honest limit in DESIGN.md). Tier 2: "
+                     "histories of 2-5 loky calls (sizes up and down, executors never given a task, with-blocks, idle gaps "
+                     "beyond the worker timeout) on the REAL reusable executor over the simulated OS: tasks running at "
+                     "once and worker processes alive never exceed the resolved n_jobs of the call.",
                 note="Real pools are assumed to honour their size. Guards that inspect the real process (daemon flag, "
                      "main thread of a worker process) are exercised for thread workers only."),
     "C17": dict(engine="detsched", cat="exploration", ref="DESIGN.md section 3 (C17)",
@@ -76,12 +79,15 @@ CHECKS = {
     "C11": dict(engine="simfs", cat="exploration", ref="DESIGN.md section 3 (C11)",
                 technique="deterministic simulation: 2-8 real actor processes/threads on one cache directory under a "
                           "turn-based controller granting one file-system call at a time (seeded grant order, targeted "
-                          "pre-emption at check-then-act windows, optional kills)",
+                          "pre-emption at check-then-act windows, optional kills, damaged established entries); tier 2: "
+                          "2-4 threads of ONE process under the E1 scheduler, pre-empted at line granularity inside the cache code",
                 text="Seeded interleavings at file-system-call granularity; oracle: every call returns the correct "
                      "value and raises nothing, whatever is visible under a final name is one complete result at every "
                      "step, every entry present at quiescence is complete and correct, no actor hangs. Writers are "
                      "distinguishable (equal values, different multi-write pickles).",
-                note="File-system calls are atomic units; set-up (Memory construction) is done in a quiet phase; "
+                note="File-system calls are atomic units in tier 1 (and not interleaved at all in tier 2, whose pre-emption "
+                     "points are the lines of joblib/memory.py, _store_backends.py, func_inspect.py, disk.py); the long-lived "
+                     "wrappers are built in a quiet phase, Memory.eval wraps under concurrency; "
                      "exceptions of reduce_size/clear themselves are observations; .get() of a shelved reference may "
                      "raise when another actor may have cleared the entry."),
     "C02": dict(engine="simfs (sessions) + history machine", cat="exploration", ref="DESIGN.md section 3 (C02/C06)",
@@ -136,8 +142,10 @@ CHECKS = {
                      "unequal across types (1, 1.0, True are one element)."),
     "C20": dict(engine="simtracker (message-order simulation)", cat="exploration", ref="DESIGN.md section 3 (C20)",
                 technique="deterministic simulation of the tracker's command pipe: the real resource_tracker.main() reads "
-                          "a seeded merge of client scripts (with client kills, unbalanced and malformed lines) through a "
-                          "shadowed open(); invariants on the real directory are checked at every readline()",
+                          "a seeded merge of client scripts (with client kills, unbalanced and malformed lines, client-side "
+                          "creation / removal of the tracked paths) through a shadowed open(); invariants on the real directory "
+                          "are checked at every readline(); plus a real-process tier (real tracker, real clients, SIGKILL, "
+                          "group-wide SIGTERM / SIGINT) and a tier driving the real TemporaryResourcesManager",
                 text="At every step: a path with a positive reference count exists, a path whose count returned to zero "
                      "is gone at the very next step, never-registered decoys exist; after EOF everything still registered "
                      "is gone, folders after files; main() never raises out of its loop and consumes every line.",
@@ -156,7 +164,8 @@ CHECKS = {
                 technique="deterministic simulation with fault injection: the real loky executor stack (manager and feeder "
                           "threads, queues, the real _process_worker) on a simulated OS (processes as thread groups, pipes, "
                           "locks, sentinels, wait) under the seeded scheduler; workers are killed at seeded instants of the "
-                          "task life-cycle",
+                          "task life-cycle, between calls, after idle gaps beyond the worker timeout, and while the executor "
+                          "is resized or replaced for a call with another n_jobs; thorough tier adds 28 real-process scenarios",
                 text="Each call must return exactly its results or raise TerminatedWorkerError/BrokenProcessPool promptly on "
                      "the virtual clock (deadlock / hang verdicts of the engine otherwise), never wrong or partial results, "
                      "at most one failing call per kill, and following calls succeed with fresh workers; kill instants are "
@@ -203,9 +212,9 @@ def main():
         "hooks": {"guard": "JOBLIB_VERIF", "enable": "none needed: every seam is a module attribute, a public registration function or a name resolved at call time; checks import /repo in place",
                   "baseline_off_cmd": BASE, "source_commits": [], "add_only": True},
         "engines": [
-            {"name": "detsched", "path": "sim/detsched.py", "serves_properties": ["C01", "C04", "C09", "C10", "C15", "C16", "C17"],
+            {"name": "detsched", "path": "sim/detsched.py", "serves_properties": ["C01", "C04", "C09", "C10", "C11", "C15", "C16", "C17"],
              "kind_free_text": "deterministic baton-passing scheduler over real parked threads, settrace pre-emption, virtual clock, recorded decision list"},
-            {"name": "simproc", "path": "sim/simproc.py", "serves_properties": ["C10"],
+            {"name": "simproc", "path": "sim/simproc.py", "serves_properties": ["C10", "C15"],
              "kind_free_text": "simulated OS (SimProcess thread groups running the real _process_worker, SimPipe, sim_wait, SimContext) under the real loky ProcessPoolExecutor"},
             {"name": "simtracker", "path": "props/c20.py", "serves_properties": ["C20"],
              "kind_free_text": "shadowed open() of resource_tracker: readline() is the simulator step over a seeded merge of client scripts"},
